@@ -117,9 +117,23 @@ func c10fileLevel(c *core.Ctx, i int) {
 	}
 	k := 0
 	c10comp.on = true
+	// in a quarter of the cases the callback stops the read with an error at some record; the record
+	// handed to that callback is retained too and its bank stays open
+	stopAt := -1
+	if r.IntN(4) == 0 {
+		stopAt = r.IntN(len(f.want))
+	}
+	errStop := fmt.Errorf("stop here")
 	err := avro.ReadFile(bytes.NewReader(f.file), reflect.New(rt).Interface(), func(val unsafe.Pointer, rb *avro.ResourceBank) error {
 		if viol {
 			return nil
+		}
+		if k == stopAt {
+			v := reflect.New(rt).Elem()
+			v.Set(reflect.NewAt(rt, val).Elem())
+			held = append(held, &retained{k: k, val: v, bank: rb, closeAt: -1})
+			k++
+			return errStop
 		}
 		// every retained record whose bank is open must still be what was written
 		verify(fmt.Sprintf("by the time record %d was decoded", k))
@@ -162,16 +176,47 @@ func c10fileLevel(c *core.Ctx, i int) {
 		k++
 		return nil
 	})
-	c10comp.on = false
 	c.Eval(1)
 	if viol {
+		c10comp.on = false
 		return
 	}
-	if err != nil || k != len(f.want) {
+	if stopAt >= 0 {
+		if err != errStop {
+			c10comp.on = false
+			c.Violate("read-error", fmt.Sprintf("callback stopped the read at record %d, ReadFile returned %v [%s]", stopAt, err, f.desc), nil)
+			return
+		}
+		c.Count("reads-stopped-by-callback", 1)
+	} else if err != nil || k != len(f.want) {
+		c10comp.on = false
 		c.Violate("read-error", fmt.Sprintf("ReadFile: err=%v, %d of %d records [%s]", err, k, len(f.want), f.desc), nil)
 		return
 	}
-	verify("by the end of the file")
+	verify("by the end of the read")
+	// unrelated decoding after ReadFile has returned draws banks from the pool: the retained records
+	// (their banks are still open) must not be affected
+	for j := 0; j < 6 && !viol; j++ {
+		var out c10compRec
+		c10comp.rb.Reset(c10comp.enc)
+		if err := c10comp.codec.Read(c10comp.rb, unsafe.Pointer(&out)); err == nil {
+			bank := c10comp.rb.ExtractResourceBank()
+			for _, h := range held {
+				if h.bank == bank {
+					c.Violate("bank-handed-out-twice", fmt.Sprintf("a bank still held open by a retained record was handed out again after ReadFile returned [%s]", f.desc), nil)
+					viol = true
+				}
+			}
+			if !viol {
+				bank.Close()
+			}
+		}
+	}
+	c10comp.on = false
+	if viol {
+		return
+	}
+	verify("after ReadFile returned and unrelated records were decoded")
 	for _, h := range held {
 		if h.bank != nil {
 			h.bank.Close()
